@@ -24,6 +24,7 @@ const (
 	rFunc    // int upper lower strlen is_int str
 	rTrue
 	rFalse
+	rAlias // args[0] = defining expression, op = alias name
 )
 
 const (
@@ -43,6 +44,9 @@ type vRef struct {
 }
 
 func (r *vRef) kind() int {
+	if r.node == rAlias {
+		return r.args[0].kind()
+	}
 	switch r.node {
 	case rKey, rValue, rText, rConcat:
 		return kText
@@ -60,8 +64,16 @@ func (r *vRef) kind() int {
 	return kBool
 }
 
+// vRenderAliased: when set, alias nodes render as their name, otherwise as their definition
+var vRenderAliased = false
+
 func (r *vRef) render() string {
 	switch r.node {
+	case rAlias:
+		if vRenderAliased {
+			return r.op
+		}
+		return "(" + r.args[0].render() + ")"
 	case rKey:
 		return "key"
 	case rValue:
@@ -88,7 +100,17 @@ func (r *vRef) render() string {
 	case rBetween:
 		return r.args[0].render() + " between " + r.args[1].render() + " and " + r.args[2].render()
 	case rFunc:
-		return r.op + "(" + r.args[0].render() + ")"
+		t := r.op + "("
+		if r.op == "join" {
+			t += "',', "
+		}
+		for i, a := range r.args {
+			if i > 0 {
+				t += ", "
+			}
+			t += a.render()
+		}
+		return t + ")"
 	case rTrue:
 		return "true"
 	case rFalse:
@@ -171,6 +193,8 @@ func vLower(b []byte) []byte {
 
 func (r *vRef) evalText(k, v []byte) []byte {
 	switch r.node {
+	case rAlias:
+		return r.args[0].evalText(k, v)
 	case rKey:
 		return k
 	case rValue:
@@ -188,6 +212,10 @@ func (r *vRef) evalText(k, v []byte) []byte {
 			return vUpper(r.args[0].evalText(k, v))
 		case "lower":
 			return vLower(r.args[0].evalText(k, v))
+		case "join": // join(',', a, b)
+			out := append([]byte(nil), r.args[0].evalText(k, v)...)
+			out = append(out, ',')
+			return append(out, r.args[1].evalText(k, v)...)
 		}
 	}
 	vAssert(false, "harness/ref-evalText-on-non-text")
@@ -196,6 +224,8 @@ func (r *vRef) evalText(k, v []byte) []byte {
 
 func (r *vRef) evalInt(k, v []byte) int64 {
 	switch r.node {
+	case rAlias:
+		return r.args[0].evalInt(k, v)
 	case rNum:
 		return r.num
 	case rArith:
@@ -276,6 +306,8 @@ func vCmpInt(op string, a, b int64) bool {
 
 func (r *vRef) evalBool(k, v []byte) bool {
 	switch r.node {
+	case rAlias:
+		return r.args[0].evalBool(k, v)
 	case rTrue:
 		return true
 	case rFalse:
@@ -400,6 +432,11 @@ func vCmp(op string, a, b *vRef) *vRef {
 	return &vRef{node: rCmp, op: op, args: []*vRef{a, b}}
 }
 func vFn(name string, a *vRef) *vRef { return &vRef{node: rFunc, op: name, args: []*vRef{a}} }
+func vJoin(a, b *vRef) *vRef        { return &vRef{node: rFunc, op: "join", args: []*vRef{a, b}} }
+func vAliasRef(name string, def *vRef) *vRef {
+	return &vRef{node: rAlias, op: name, args: []*vRef{def}}
+}
+func vNumConst(n int64) *vRef { return &vRef{node: rNum, num: n, numTxt: vItoa(int(n))} }
 func vIn(x *vRef, items ...*vRef) *vRef {
 	return &vRef{node: rIn, args: append([]*vRef{x}, items...)}
 }
